@@ -163,7 +163,23 @@ class RealCtx(BaseCtx):
             if i + 1 < len(Ts):
                 self.assume(Ts[i + 1] - Ts[i] > abs(offs[i + 2] - offs[i + 1]) + abs(d))
         data = tzif.make([t - cal.EPOCH_ORD * 86400 for t in Ts], list(offs))
-        return self.P.tz.timezone.Timezone.from_file(io.BytesIO(data), key=key)
+        self._install(key, data)
+        return self.P.tz.timezone.Timezone(key)
+
+    def _install(self, key, data):
+        """make `key` resolvable by name through zoneinfo's search path (as a tz database zone would be)"""
+        import tempfile
+        if getattr(self, "_tzdir", None) is None:
+            self._tzdir = tempfile.mkdtemp(prefix="vf-tz-")
+            import atexit, shutil
+            atexit.register(shutil.rmtree, self._tzdir, True)
+        path = os.path.join(self._tzdir, *key.split("/"))
+        os.makedirs(os.path.dirname(path), exist_ok=True)
+        with open(path, "wb") as f:
+            f.write(data)
+        self.zi.reset_tzpath(to=[self._tzdir])
+        self.zi.ZoneInfo.clear_cache()
+        self.P.tz.timezone.Timezone.clear_cache()
 
     def fixed_zone(self, off, name=None):
         return self.P.tz.timezone.FixedTimezone(off, name)
@@ -171,7 +187,8 @@ class RealCtx(BaseCtx):
     def native_zone(self, key, Ts, offs):
         from . import tzif
         data = tzif.make([t - cal.EPOCH_ORD * 86400 for t in Ts], list(offs))
-        return self.zi.ZoneInfo.from_file(io.BytesIO(data), key=key)
+        self._install(key, data)
+        return self.zi.ZoneInfo(key)
 
 
 def _plain(v):
